@@ -1,0 +1,43 @@
+//go:build verif
+
+// Copyright Istio Authors
+//
+// Licensed under the Apache License, Version 2.0 (the "License");
+// you may not use this file except in compliance with the License.
+// You may obtain a copy of the License at
+//
+//     http://www.apache.org/licenses/LICENSE-2.0
+//
+// Unless required by applicable law or agreed to in writing, software
+// distributed under the License is distributed on an "AS IS" BASIS,
+// WITHOUT WARRANTIES OR CONDITIONS OF ANY KIND, either express or implied.
+// See the License for the specific language governing permissions and
+// limitations under the License.
+
+package xds
+
+import (
+	"istio.io/istio/pilot/pkg/model"
+	"istio.io/istio/pkg/verif"
+)
+
+// ---------------------------------------------------------------------------------------------
+// C06: which invalidation a push request triggers
+// ---------------------------------------------------------------------------------------------
+
+// from the statement: "never stale". A forced push is one whose cause is not known config by config (or
+// is known to affect everything): whatever ConfigsUpdated lists - requests are merged on their way here - no
+// entry may survive it. Clearing only the entries that depend on the listed configs is therefore allowed
+// only for a request that is not forced.
+//
+//verif:contract (*DiscoveryServer).dropCacheForRequest
+//verif:prop C06
+func ctDropCacheForRequest(s *DiscoveryServer, req *model.PushRequest) {
+	verif.Requires("server-and-request-present", s != nil && req != nil && s.Cache != nil)
+	s.dropCacheForRequest(req)
+}
+
+//verif:call-assert (*DiscoveryServer).dropCacheForRequest Clear 0
+func caSelectiveClearOnlyForARequestThatIsNotForced(req *model.PushRequest) bool {
+	return !req.Forced
+}
